@@ -118,6 +118,37 @@ def _reach_table(cls: ast.ClassDef, extra: t.List[ast.ClassDef]) -> t.Dict[str, 
     return out
 
 
+def _mutable_defaults(mods: t.List[ast.Module]) -> t.List[str]:
+    """constructors whose parameter default is one shared mutable object ({} / [] / set() / dict() / list())"""
+    bad = []
+    for mod in mods:
+        for cls in [n for n in ast.walk(mod) if isinstance(n, ast.ClassDef)]:
+            for fn in cls.body:
+                if isinstance(fn, ast.FunctionDef) and fn.name == "__init__":
+                    a = fn.args
+                    for d in list(a.defaults) + [x for x in a.kw_defaults if x is not None]:
+                        if isinstance(d, (ast.Dict, ast.List, ast.Set, ast.ListComp, ast.DictComp, ast.SetComp)) or (
+                            isinstance(d, ast.Call) and isinstance(d.func, ast.Name) and d.func.id in ("dict", "list", "set", "defaultdict")
+                        ):
+                            bad.append(f"{cls.name}.__init__")
+    return bad
+
+
+def _add_ctes_owns_expression(df: ast.ClassDef) -> bool:
+    """`_add_ctes_to_expression` appends to the WITH clause of the expression it is given: it must work on a copy,
+    or no caller may hand it a DataFrame's own expression"""
+    fn = find_func(df.body, "_add_ctes_to_expression")
+    first = [st for st in fn.body if not (isinstance(st, ast.Expr) and isinstance(st.value, ast.Constant))][0]
+    if ast.unparse(first) == "expression = expression.copy()":
+        return True
+    for n in ast.walk(df):
+        if isinstance(n, ast.Call) and isinstance(n.func, ast.Attribute) and n.func.attr == "_add_ctes_to_expression" and n.args:
+            a = ast.unparse(n.args[0])
+            if a.endswith(".expression"):
+                return False
+    return True
+
+
 def gen_purity(repo: str) -> str:
     mod = parse(repo, "sqlframe/base/dataframe.py")
     df = find_class(mod, "BaseDataFrame")
@@ -141,6 +172,11 @@ def gen_purity(repo: str) -> str:
     priv = any(ast.unparse(s) == "self._df = df.copy()" for s in init.body)
     out.append("/-- GroupedData keeps a private copy of the DataFrame it was created from -/")
     out.append(f"def groupKeepsCopy : Bool := {str(priv).lower()}")
+    bad = _mutable_defaults([mod, parse(repo, "sqlframe/base/group.py"), parse(repo, "sqlframe/base/column.py")])
+    out.append("/-- no constructor takes one shared mutable object as a parameter default -/")
+    out.append(f"def constructorsOwnTheirState : Bool := {str(not bad).lower()}" + (f"  -- {', '.join(bad)}" if bad else ""))
+    out.append("/-- `_add_ctes_to_expression` never appends to a DataFrame's own WITH clause -/")
+    out.append(f"def addCtesOwnsExpression : Bool := {str(_add_ctes_owns_expression(df)).lower()}")
     out.append("")
     reach = _reach_table(df, [duck, mixin])
     out.append("/-- static call graph: can this public method reach the engine? -/")
